@@ -775,6 +775,30 @@ def c01(ctx):
                     if "@dec" in hd and m in ("js", "jsx", "dts"):
                         continue
                     must_debug.append({"src": hd + body, "media": m, "rules": "all", "jsx": rng.choice([None, "h", "React.createElement"])})
+    # (12) identifier spellings: every combination of short segments (lower / upper / digit / single and double underscores / $ / non-ASCII) in
+    #      declaration and reference positions (rules that rewrite or classify the NAME: camelcase, no-unused-vars hints, prefer-ascii, ...)
+    import itertools as _it
+    SEG = ["a", "bar", "B", "X", "1", "42", "_", "__", "$", "é", "fooBar", "ID"]
+    names12 = set()
+    for k in (1, 2, 3, 4):
+        combos = list(_it.product(SEG, repeat=k))
+        for combo in (combos if k <= 2 else rng.sample(combos, 700 if quick else 6000)):
+            nm = "".join(combo)
+            if not nm[0].isdigit():
+                names12.add(nm)
+    for nm in sorted(names12):
+        tpl = rng.choice(["const %s = 1; export function f1(%s_p) { return %s_p; }", "function %s() {} %s();", "let { %s } = o, { k: %s_2 } = o;", "class %s { %s = 1; }",
+                          "import { %s } from 'm'; export { %s as z1 };", "x = { %s: 1 }; x.%s;", "type %s = number; let v: %s;", "%s: for (;;) { break %s; }"])
+        must_debug.append({"src": tpl.replace("%s", nm), "media": "ts", "rules": "all"})
+    # (13) literal shapes in key / operand / case positions (rules that compare or print literals)
+    LITS = ["1e21", "1e-7", "1e999", "0x10", "1_000", "0b11", "0o17", "017", ".5", "5.", "1n", "-0", "0", "NaN", "1.0", "1e3", "0.1e-6", "9007199254740993", "'a'", "\"a\"", "`a`", "'\\u0061'",
+            "null", "true", "undefined", "/a/", "[]", "{}", "1 + 1", "''", "'__proto__'", "'constructor'", "0n", "1e21n" if False else "123456789012345678901234567890n"]
+    for lt in LITS:
+        for tpl in ("a[%s] = a[%s];", "x = { %s: 1, %s: 2 };", "class K { %s() {} %s() {} }", "switch (x) { case %s: break; case %s: break; }", "x = %s === %s;", "x = %s == %s;",
+                    "if (x === %s) {} else if (x === %s) {}", "x = { [%s]: 1, [%s]: 2 };", "this.l[%s] = this.l[%s];", "x = typeof %s === %s;", "new RegExp(%s, %s);", "x = -%s; y = !%s; z = !!%s;"):
+            if tpl.startswith(("x = { %s:", "class K")) and not (lt[0].isdigit() or lt[0] in "'\".") :
+                continue
+            must_debug.append({"src": tpl.replace("%s", lt), "media": rng.choice(["ts", "js"]), "rules": "all"})
     cases += must_debug
     # (7) regular-expression heavy files (long digit runs, \u{...} with many hex digits, deep groups), all rules
     import regex as RX
